@@ -44,6 +44,8 @@ type boundProver struct {
 	fields  []fieldBound
 	inRet   map[*ssa.Function]bool
 	inParam map[*ssa.Parameter]bool
+	// cbMin: for the argument list parameter of every extension callback, the smallest MinArgs it is registered with
+	cbMin map[*ssa.Parameter]int64
 }
 
 // boundAbstentions: bounds the constant-interval prover cannot establish; keyed "function | construct".
